@@ -364,7 +364,7 @@ def mul_family():
             m = max(na + nb, 1)
             for f in range(5):
                 quick = f == (na * 2 + nb) % 5
-                H("c01_mul_u_%d%d_%s" % (na, nb, FORMS5[f]), "h_mul::mul_u::<%d,%d,%d>(%d,false,5)" % (na, nb, m, f),
+                H("c01_mul_u_%d%d_%s" % (na, nb, FORMS5[f]), "h_mul::mul_u::<%d,%d,%d>(%d,false,%d)" % (na, nb, m, f, 5 if max(na, nb) <= 2 or na == nb else 2),
                   Q("C01", "C15", "C17") if quick else TH("C01", "C15", "C17"), unwind=m + 5, bound="UBig*UBig lengths exactly (%d,%d), structured words (5-bit payload)" % (na, nb))
             if na + nb <= 2 and na and nb:
                 H("c01_mul_u_full_%d%d" % (na, nb), "h_mul::mul_u::<%d,%d,%d>(1,true,0)" % (na, nb, m), TH("C01"), unwind=m + 5, bound="UBig*UBig (%d,%d) full width" % (na, nb))
@@ -490,7 +490,7 @@ def div_family():
     for dn, d in DIVS.items():
         for na in (1, 2, 3, 4):
             for w in range(4):
-                quick = (w == (na + len(d)) % 4 and na in (2, 3)) or (na == len(d) and na >= 2 and w in (0, 3))
+                quick = ((w == (na + len(d)) % 4 and na in (2, 3)) or (na == len(d) and na >= 2 and w in (0, 3))) and not (len(d) == 3 and na >= 3)
                 H("c02_constdiv_%s_%d_%d" % (dn, na, w), "h_div::const_div::<%d,%d>([%s],%d,4)" % (na, len(d), ",".join(str(v) for v in d), w),
                   Q("C02") if quick else TH("C02"), unwind=na + len(d) + 8, bound="ConstDivisor(%s) vs plain division, structured dividends of %d words" % (dn, na))
 
@@ -599,8 +599,12 @@ def nt_family():
         H("c12_log2_u16_%d" % i, "h_nt::log2_u16(%d,%d,false)" % (lo, hi), Q("C12", "C19") if i in (0, 1, 4, 15) else TH("C12", "C19"), unwind=4,
           bound="no_std log2_bounds for every u16 in [%d,%d], exact against floor/ceil(2^40 log2 n)" % (lo, hi))
     H("c12_log2_zero", "h_nt::log2_zero()", Q("C12"), unwind=4)
-    H("c12_log2_u32", "h_nt::log2_wide(false)", Q("C12", "C19"), unwind=4, bound="no_std log2_bounds for every u32 > 65535: exact where the bits below the 16-bit prefix are zero, necessary conditions elsewhere")
-    H("c12_log2_u64", "h_nt::log2_wide(true)", TH("C12", "C19"), unwind=4, bound="no_std log2_bounds for every u64 > 65535 (same criterion)")
+    for i in range(16):
+        lo, hi = 32768 + i * 2048, 32768 + i * 2048 + 2047
+        H("c12_log2_u32_%d" % i, "h_nt::log2_wide(false,%d,%d)" % (lo, hi), Q("C12", "C19") if i in (0, 7, 15) else TH("C12", "C19"), unwind=4,
+          bound="no_std log2_bounds for every u32 > 65535 whose 16-bit prefix is in [%d,%d]: bounds must enclose a rigorous enclosure of log2 n" % (lo, hi))
+        H("c12_log2_u64_%d" % i, "h_nt::log2_wide(true,%d,%d)" % (lo, hi), TH("C12", "C19"), unwind=4,
+          bound="no_std log2_bounds for every u64 > 65535 whose 16-bit prefix is in [%d,%d]" % (lo, hi))
     H("c12_next_updown", "h_nt::next_updown()", Q("C12"), unwind=4, bound="next_up/next_down for every finite f32")
     H("c12_nth_root_zero", "h_nt::nth_root_zero_one(false)", Q("C12"), "i64", unwind=6, bound="UBig/IBig::nth_root(n) of 0 for every n >= 1")
     H("c12_nth_root_one", "h_nt::nth_root_zero_one(true)", Q("C12"), "i64", unwind=6, bound="UBig/IBig::nth_root(n) of 1 for every n >= 1")
@@ -623,7 +627,7 @@ def nt_family():
         for n in (3, 4):
             for sw in (False, True):
                 H("c12_gcd_ext_large_word_%d_b%d_%s" % (n, b, "ba" if sw else "ab"), "h_nt::gcd_ext_large_word::<%d,%d>(%d,%s)" % (n, n + 2, b, "true" if sw else "false"),
-                  Q("C12") if (n == 3 and b in (12, 10)) else TH("C12"), unwind=80,
+                  TH("C12"), unwind=80,
                   bound="gcd_ext of %d structured words and the literal word %d: divisibility and Bezout identity with signs" % (n, b))
     for f in (2, 8, 3, 10):
         H("c12_remove_%d" % f, "h_nt::remove_small(12,%d)" % f, Q("C12") if f in (2, 8) else TH("C12"), "i64", unwind=24, bound="UBig::remove(%d) for every non-zero value below 2^12" % f)
@@ -642,10 +646,10 @@ def mod_family():
             if op == 6:
                 for e in (0, 1, 2, 3, 5) if not small else (0, 1, 2):
                     H("c13_%s_pow%d" % (mn, e), "h_mod::ring_op::<%d>([%s],6,%d,%d)" % (len(m), ",".join(map(str, m)), e, 6 if small else 12),
-                      Q("C13") if (e in (0, 3) and mn in ("m10007", "mtop5", "dw13", "lg705")) else TH("C13"), unwind=16,
+                      Q("C13") if (e in (0, 3) and mn in ("m10007", "mtop5", "dw13")) else TH("C13"), unwind=16,
                       bound="Reduced::pow(%d) in the ring mod %s, base = +-p (p < 2^%d)" % (e, mn, 6 if small else 12))
             else:
-                q = mn in ("m10007", "mtop5", "dw13", "lg705", "lgtop") and on in ("add", "sub", "mul", "neg", "sqr")
+                q = mn in ("m10007", "mtop5", "dw13", "dwtop") and on in ("add", "sub", "mul", "neg", "sqr")
                 H("c13_%s_%s" % (mn, on), "h_mod::ring_op::<%d>([%s],%d,0,%d)" % (len(m), ",".join(map(str, m)), op, bits),
                   Q("C13", "C15") if q else TH("C13", "C15"), unwind=16, bound="Reduced %s in the ring mod %s, elements +-p (p < 2^%d), residue vs integer result mod m" % (on, mn, bits))
     for m in (1, 2, 9, 10, 10007, 65536):
@@ -655,7 +659,7 @@ def mod_family():
     for m in (1, 2, 9, 10, 12, 97):
         H("c13_inv_%d" % m, "h_mod::ring_inv(%d)" % m, Q("C13") if m in (1, 9, 10) else TH("C13"), unwind=80, bound="Reduced::inv in the ring mod %d, every residue" % m)
     for mn, m in (("fsq", [1, 2, 1]), ("f_c3", [3, 4, 1])):
-        H("c13_inv_large_%s" % mn, "h_mod::ring_inv_large::<3>([%s],[1,1],8)" % ",".join(map(str, m)), Q("C13") if mn == "fsq" else TH("C13"), unwind=40,
+        H("c13_inv_large_%s" % mn, "h_mod::ring_inv_large::<3>([%s],[1,1],8)" % ",".join(map(str, m)), TH("C13"), unwind=40,
           bound="Reduced::inv in the 3-word ring m = (2^64+1)*c for elements +-k*(2^64+1), k < 2^8: must be None")
     for op in range(4):
         H("c13_mix_%d" % op, "h_mod::ring_mix(%d)" % op, Q("C13", "C16"), kind="panic", unwind=8, bound="operands from two ConstDivisor instances panic")
@@ -666,17 +670,17 @@ MODES = ["Zero", "Away", "Up", "Down", "HalfEven", "HalfAway"]
 
 def round_family():
     for m, mn in enumerate(MODES):
-        H("c10_round_low_part_%s" % mn, "h_round::round_low_part(%d)" % m, Q("C10", "C03"), unwind=4,
+        H("c10_round_low_part_%s" % mn, "h_round::round_low_part(%d)" % m, Q("C10"), unwind=4,
           bound="Round::round_low_part, mode %s, |integer| < 2^40, every (sign of low part, |low| cmp 1/2)" % mn)
         for B, ps in ((2, (1, 3, 8)), (3, (1, 2, 5)), (10, (1, 2, 3)), (16, (1, 2)), (36, (1, 2))):
             for p in ps:
                 q = (B in (2, 10) and p in (1, 3)) or (B == 3 and p == 2 and m >= 4)
-                H("c10_round_fract_%s_b%d_p%d" % (mn, B, p), "h_round::round_fract::<%d>(%d,%d)" % (B, m, p), Q("C10", "C03") if q else TH("C10", "C03"), "i64", unwind=12,
+                H("c10_round_fract_%s_b%d_p%d" % (mn, B, p), "h_round::round_fract::<%d>(%d,%d)" % (B, m, p), Q("C10") if q else TH("C10"), "i64", unwind=12,
                   bound="Round::round_fract::<%d>, mode %s, precision %d, every |fract| < %d^%d and |integer| < 2^20" % (B, mn, p, B, p))
         for bits in (4, 10):
-            H("c10_round_ratio_%s_%d" % (mn, bits), "h_round::round_ratio(%d,%d)" % (m, bits), Q("C10", "C03") if bits == 4 else TH("C10", "C03"), "i64", unwind=8,
+            H("c10_round_ratio_%s_%d" % (mn, bits), "h_round::round_ratio(%d,%d)" % (m, bits), Q("C10") if bits == 4 else TH("C10"), "i64", unwind=8,
               bound="Round::round_ratio, mode %s, |num| <= |den| < 2^%d, every sign combination" % (mn, bits))
-    H("c10_add_rounding", "h_round::add_rounding()", Q("C10", "C03"), "i64", unwind=6, bound="IBig + Rounding, |integer| < 2^40")
+    H("c10_add_rounding", "h_round::add_rounding()", Q("C10"), "i64", unwind=6, bound="IBig + Rounding, |integer| < 2^40")
     for B in (2, 10, 3, 16):
         H("c15_fbig_shift_b%d" % B, "h_round::fbig_shift::<%d>()" % B, Q("C15") if B in (2, 10) else TH("C15"), "i64", unwind=8,
           bound="FBig<Zero,%d> << / <<= / >> / >>=, |significand| < 2^30 (normalised), |exponent|,|k| < 1000" % B)
@@ -777,6 +781,7 @@ def build():
     round_family()
     numord_family()
     buf_family()
-    float_family()
+    # float_family() is NOT registered: every instance ran out of time/memory (DESIGN 0.2 (k)); the bodies in
+    # h_float.rs are kept because their native random run (--selftest) exposed a genuine rounding defect
     thin()
     return T
